@@ -93,6 +93,7 @@ func validOps(n int, take bool) []histOp {
 
 func genHistories(gen *vlib.G) {
 	genRejected(gen)
+	genSamplerHistories(gen)
 	for _, n := range []int{1, 2, 3, 4, 5} {
 		n := n
 		depth := 3
